@@ -107,7 +107,8 @@ QUICK_MICRO = ["m03_star", "m05_opt", "m07_nullable_rule", "m11_deep", "e02_cond
                "m12_loop_in_recursive", "n10_rename_nameless_creation", "x14_prefix_postfix", "x01_left", "x17_two_pratt_rules"]
 QUICK_SKEL = {"fe", "m03_star", "k01_noskip", "q01_parts", "o03_choice_rule", "ex_json"}
 # units that get the bounded native run (C16 relational clause) although Verus verifies all their functions
-REL_UNITS = {"m03_star", "m05_opt", "m11_deep", "ex_json", "ex_toml", "q01_parts", "x07_mixed", "p01_pred_alt", "n04_marker_loop", "e02_cond", "t02_return_cond"}
+REL_UNITS = {"m03_star", "m05_opt", "m11_deep", "ex_json", "ex_toml", "q01_parts", "x07_mixed", "p01_pred_alt", "n04_marker_loop", "e02_cond", "t02_return_cond",
+             "m07_nullable_rule", "q02_parts_shared", "x03_right1", "x14_prefix_postfix"}
 QUICK_EX = ["calc", "json", "l", "toml"]
 
 
@@ -418,6 +419,15 @@ def verify_unit(unit, gen_text, timeout=1500):
                 b.update({"functions": ext, "max_len": ml, "alphabet": info["chars"], "predicate_patterns": info["predicate_patterns"],
                           "entries": info["entries"], "wall_s": round(time.time() - t1, 2)})
                 res["bounded"] = b
+                if unit["kind"] == "grammar" and grammar_text:
+                    # bounded stand-in for the first clause of C06 (first diagnostic at the first offending token)
+                    try:
+                        import viable
+                        t1 = time.time()
+                        res["viable"] = viable.run(grammar_text, exe, info)
+                        res["viable"]["wall_s"] = round(time.time() - t1, 2)
+                    except Exception as e:
+                        res["viable"] = {"status": "error", "detail": "%s: %s" % (type(e).__name__, e)}
         except Exception as e:
             res["bounded"] = {"status": "harness_failed", "detail": "%s: %s" % (type(e).__name__, e), "functions": ext}
     if e13 and res["status"] == "ok":
